@@ -197,6 +197,13 @@ theorem run_no_fault (cs : List (Creator T BT)) (args : List V) (blk : Option B)
   · simp [run, hp]
   · simp [run, hbs, hds]
 
+/-- a sequence of calls on one function object is the single-call semantics applied call by call -/
+theorem callSeq_map (calls : List (List V × Option B)) : ∀ s : FnState T BT,
+    callSeq inst binst s calls = calls.map fun c => call inst binst s.dispatchers c.1 c.2 := by
+  induction calls with
+  | nil => intro s; rfl
+  | cons c rest ih => intro s; obtain ⟨a, b⟩ := c; simp [callSeq, callStep, ih]
+
 end
 
 end Pcore.Dispatch
